@@ -50,6 +50,30 @@ class MyInt(int):
     pass
 
 
+class Plain:
+    """A class whose metaclass is plain `type` (Foo's is MetaHasTraits)."""
+
+
+class PlainSub(Plain):
+    pass
+
+
+class Spoof:
+    """Not a Plain by type, but isinstance() says it is (the documented instance test honours __class__)."""
+    __class__ = Plain
+
+
+_ALIVE = []
+
+
+def _proxy_plain():
+    import weakref
+    p = Plain()
+    _ALIVE.append(p)
+    del _ALIVE[:-64]
+    return weakref.proxy(p)
+
+
 class MyFloat(float):
     pass
 
@@ -113,7 +137,7 @@ def _fn():
     return 1
 
 
-CLASSES = {"Foo": Foo, "Bar": Bar, "Other": Other, "int": int, "str": str, "MyInt": MyInt}
+CLASSES = {"Foo": Foo, "Bar": Bar, "Other": Other, "int": int, "str": str, "MyInt": MyInt, "Plain": Plain}
 
 # name -> factory; the names are what cases carry ({"x": name})
 SPECIALS = collections.OrderedDict([
@@ -141,6 +165,8 @@ SPECIALS = collections.OrderedDict([
     ("int", lambda: int), ("Foo()", lambda: Foo()), ("Bar()", lambda: Bar()), ("Other()", lambda: Other()),
     ("sys", lambda: sys), ("BadEq()", lambda: BadEq()), ("object()", lambda: object()),
     ("bytearray(a)", lambda: bytearray(b"a")), ("range(3)", lambda: range(3)),
+    ("Plain()", lambda: Plain()), ("PlainSub()", lambda: PlainSub()), ("Spoof()", lambda: Spoof()), ("proxy(Plain())", _proxy_plain),
+    ("Plain", lambda: Plain), ("PlainSub", lambda: PlainSub),
 ])
 V.SPECIAL.update(SPECIALS)
 
@@ -621,6 +647,8 @@ def grid():
           ["List", ["Int"], 0, None], ["List", ["Int"], 1, 2], ["List", ["Float"], 0, None], ["List", ["Str"], 0, 3],
           ["Dict", ["Str"], ["Int"]], ["Dict", ["Int"], ["Float"]], ["Set", ["Int"]], ["Set", ["Str"]], ["None"]]
     g += [["InstanceClone", "Foo", True, False], ["InstanceClone", "Foo", False, True], ["InstanceClone", "int", True, False]]
+    g += [["Instance", "Plain", True, None], ["Instance", "Plain", False, None], ["Type", "Plain", True],
+          ["Either", [["Instance", "Plain", False, None], ["Int"]]], ["Tuple", [["Instance", "Plain", True, None], ["Int"]]]]
     for an in (True, False):
         g += [["Instance", "Foo", an, None], ["Instance", "int", an, None], ["Instance", "Foo", an, "yes"],
               ["Instance", "Foo", an, "default"], ["Type", "Foo", an], ["This", an], ["Callable", an]]
